@@ -531,6 +531,8 @@ Definition word_flavour (c : cmd) : option (flavour * bool) :=   (* bool: true =
    state (observed on the implementation, too). *)
 Definition check_step (U : uni) (e : event) (c0 : bytes) (d0 : nat) (c1 : bytes) (d1 : nat) (aux : nat) : bool :=
   at_boundary c1 d1 &&
+  (* no character was cut in half: valid UTF-8 stays valid UTF-8 *)
+  (negb (valid c0) || valid c1) &&
   match e with
   | ECmd c =>
     match rune_index c0 d0, rune_index c1 d1 with
